@@ -778,7 +778,8 @@ impl<const N: usize> World<N> {
                 // The entry is in the ring all the same: the device will fetch it, and it must
                 // stay intact until then like any other (C02 keeps judging it).
                 self.adds += 1;
-                let chain = self.oracle_add(t, prev_avail, &ins, &outs, log_before, false);
+                // (and it is judged like any other chain the device reaches: C01)
+                let chain = self.oracle_add(t, prev_avail, &ins, &outs, log_before, check);
                 let heldn = chain.as_ref().map(|c| c.descs.len()).unwrap_or(if self.cfg.indirect { 1 } else { n });
                 let chain = chain.unwrap_or(Chain { head: t, descs: vec![], elems: vec![], indirect: None });
                 self.outs.push(Out { token: t, ins: std::mem::take(&mut ins), outs: std::mem::take(&mut outs), pos, chain, completed: None, held: heldn });
@@ -1032,6 +1033,11 @@ impl<const N: usize> World<N> {
         }
         // Elements must be exactly the caller's buffers, in order.
         let want: Vec<(usize, usize, bool)> = ins.iter().map(|b| (b.as_ptr() as usize, b.len(), false)).chain(outs.iter().map(|b| (b.as_ptr() as usize, b.len(), true))).collect();
+        if chain.elems.len() > N {
+            // "A driver MUST NOT create a descriptor chain longer than the Queue Size of the
+            // device" - through an indirect table as little as directly.
+            viol("C01", "chain-longer-than-queue", format!("chain {} has {} elements on a queue of {} entries", token, chain.elems.len(), N));
+        }
         if chain.elems.len() != want.len() {
             viol("C01", "chain-length", format!("chain {} has {} elements for {} caller buffers", token, chain.elems.len(), want.len()));
         }
